@@ -71,7 +71,7 @@ struct LcSim : Harness {
   SimAlloc A, A2; SimCode K, K2; Layout L = LAYOUT0; bool own_handlers = true;
   jmp_buf err_jmp; int err_code = 0; char err_msg[256];
   const char *name() override { return "lcsim"; }
-  int hang_seconds() override { return 30; }
+  int hang_seconds() override { const char *e = getenv("VERIF_HANG_S"); return e ? atoi(e) : 30; }  // (the override is a development aid for minimising hangs)
   void worker_init() override {
     if (A.base) return;
     if (!A.map((void *) L.a, 1ull << 30) || !A2.map((void *) L.a2, 1ull << 30)) { fprintf(stderr, "lcsim: cannot map arenas\n"); _exit(3); }
@@ -779,6 +779,12 @@ struct LcSim : Harness {
   // anything the history did.  Decide by experiment: the same program, in a fresh context, with the most ordinary
   // history (scan, load, link with eager generation) at each optimization level.  If that crashes too, the history is
   // not to blame and the death is counted as a side finding, not as a verdict on a history property.
+  // "the same program": the modules the history under examination loads (another module of the plan's program may have a defect of its own)
+  static bool loaded_in(const Json &plan, size_t mi) {
+    bool any = false, me = false;
+    for (auto &op : plan.at("ops").a) if (op.k == Json::Arr && op.size() > 1 && op[0].s == "load") { any = true; if ((size_t) op[1].num() == mi) me = true; }
+    return me || !any;
+  }
   // The same program with the most ordinary history under each engine: interpreter, eager generation at -O0 .. -O3.
   // One letter per engine: O as the model says, W wrong value, C crash, H watchdog, X another violation.
   std::string engine_profile(const Json &plan, int tmo) {
@@ -787,7 +793,7 @@ struct LcSim : Harness {
       bool interp = round < 0; Json p = plan; Json ops = Json::array(); size_t nm = plan.at("prog").at("mods").size();
       auto push = [&](std::initializer_list<Json> l) { Json o = Json::array(); for (auto &x : l) o.push(x); ops.push(o); };
       push({"opt", interp ? 2 : round});
-      for (size_t mi = 0; mi < nm; mi++) { push({"scan", (long long) mi}); push({"load", (long long) mi}); }
+      for (size_t mi = 0; mi < nm; mi++) if (loaded_in(plan, mi)) { push({"scan", (long long) mi}); push({"load", (long long) mi}); }
       push({"link", interp ? 1 : 2, 0});
       for (auto &op : plan.at("ops").a) if (op.k == Json::Arr && op.size() > 1 && (op[0].s == "call" || op[0].s == "interp")) { Json c = op; if (!interp) c[0] = Json("call"); ops.push(c); }
       p.set("ops", ops); p["knobs"].set("placement", (int) P_PACKED_FAR);
@@ -797,15 +803,15 @@ struct LcSim : Harness {
     return prof;
   }
   // Engines that disagree on an ordinary history at the level of the execution machinery -- the interpreter alone fails, or
-  // generated code fails already without optimization -- make the program's behaviour depend on the interface: that is C03's
-  // subject.  A failure of every engine (front end, inliner, the model itself) or of optimized code only (C01/C02) is not.
+  // generated code fails whatever the optimization level -- make the program's behaviour depend on the interface: that is C03's
+  // subject.  A failure of every engine (front end, inliner, the model itself) or at some levels only (C01/C02) is not.
   static bool machinery_level(const std::string &prof) {
-    bool interp_bad = prof[0] != 'O', gen0_bad = prof[1] != 'O', gen_all_bad = prof[1] != 'O' && prof[2] != 'O' && prof[3] != 'O' && prof[4] != 'O';
+    bool interp_bad = prof[0] != 'O', gen_all_bad = prof[1] != 'O' && prof[2] != 'O' && prof[3] != 'O' && prof[4] != 'O';
     bool gen_any_bad = prof.find_first_not_of('O', 1) != std::string::npos;
     if (interp_bad && gen_all_bad) return false;   // everybody
     if (interp_bad && !gen_any_bad) return true;   // interpreter only
-    if (!interp_bad && gen0_bad) return true;      // generated code without optimization
-    return false;
+    if (!interp_bad && gen_all_bad) return true;   // generated code at every level, optimization or not
+    return false;                                  // (some levels only: the optimizer's or the fast allocator's business, C01/C02)
   }
   void reclassify(const Json &plan, ChildEnd &e) override {
     if (!plan.has("prog")) return;
@@ -846,14 +852,37 @@ struct LcSim : Harness {
         auto push = [&](std::initializer_list<Json> l) { Json o = Json::array(); for (auto &x : l) o.push(x); ops.push(o); };
         push({"opt", level});
         for (auto &op : plan.at("ops").a) if (op.k == Json::Arr && op.size() > 1 && (op[0].s == "scan" || op[0].s == "c2m" || op[0].s == "bin")) ops.push(op);
-        for (size_t mi = 0; mi < nm; mi++) { push({"scan", (long long) mi}); push({"load", (long long) mi}); }
+        for (size_t mi = 0; mi < nm; mi++) if (loaded_in(plan, mi)) { push({"scan", (long long) mi}); push({"load", (long long) mi}); }
         push({"link", interp ? 1 : 2, 0});
         for (auto &op : plan.at("ops").a) if (op.k == Json::Arr && op.size() > 1 && (op[0].s == "call" || op[0].s == "interp")) { Json c = op; c[0] = Json(interp && e.sig == "interp" ? "interp" : "call"); ops.push(c); }
         p.set("ops", ops);
         ChildEnd c = run_isolated(*this, p, hang_seconds(), false);
+        if (!interp && (c.status == "crash" || c.status == "hang")) {
+          // eager generation of the whole program trips over another function (a generator defect of its own): the same ordinary
+          // history with generation on first call, which only generates what the calls reach
+          for (auto &o : p["ops"].a) if (o[0].s == "link") o[1] = Json(3);
+          c = run_isolated(*this, p, hang_seconds(), false);
+        }
         if (c.status == "violation" && (c.cls == "wrong_result" || c.cls == "wrong_ext_log")) {
           e.cls = "side_program_level_wrong_value"; e.sig = interp ? "interp" : "gen_O" + std::to_string(level);
           e.detail = "the plain history create/load/link/call of the same program gives the same kind of wrong value (" + c.detail.substr(0, 120) + "): " + e.detail; return;
+        }
+      }
+      return;
+    }
+    if (e.cls == "unexpected_error" && e.sig == "err3") {
+      // MIR reports "no memory": the simulator's 1GB arena is exhausted, i.e. the library allocates without bound (a
+      // non-terminating pass).  The same experiment as for a hang: does the ordinary history of this program do it too?
+      for (int level = 0; level < 4; level++) {
+        Json p = plan; Json ops = Json::array(); size_t nm = plan.at("prog").at("mods").size();
+        auto push = [&](std::initializer_list<Json> l) { Json o = Json::array(); for (auto &x : l) o.push(x); ops.push(o); };
+        push({"opt", level});
+        for (size_t mi = 0; mi < nm; mi++) if (loaded_in(plan, mi)) { push({"scan", (long long) mi}); push({"load", (long long) mi}); }
+        push({"link", 2, 0});
+        p.set("ops", ops); p["knobs"].set("placement", (int) P_PACKED_FAR);
+        ChildEnd c = run_isolated(*this, p, hang_seconds(), false);
+        if (c.status == "hang" || (c.status == "violation" && c.cls == "unexpected_error" && c.sig == "err3")) {
+          e.cls = "side_program_level_generator_hang"; e.sig = "memory"; e.detail = "the plain history scan/load/link(eager, -O" + std::to_string(level) + ") of the same program allocates without bound too: " + e.detail; return;
         }
       }
       return;
@@ -878,9 +907,10 @@ struct LcSim : Harness {
       auto push = [&](std::initializer_list<Json> l) { Json o = Json::array(); for (auto &x : l) o.push(x); ops.push(o); };
       push({"opt", level});
       for (auto &op : plan.at("ops").a) if (op.k == Json::Arr && op.size() > 1 && (op[0].s == "scan" || op[0].s == "c2m" || op[0].s == "bin")) ops.push(op);  // same creation routes
-      for (size_t mi = 0; mi < nm; mi++) { push({"scan", (long long) mi}); push({"load", (long long) mi}); }
+      for (size_t mi = 0; mi < nm; mi++) if (loaded_in(plan, mi)) { push({"scan", (long long) mi}); push({"load", (long long) mi}); }
       push({"link", 2, 0});
-      if (!was_hang) for (auto &op : plan.at("ops").a) if (op.k == Json::Arr && op.size() > 1 && (op[0].s == "call" || op[0].s == "interp")) { Json cc = op; cc[0] = Json("call"); ops.push(cc); }  // and the same executions
+      bool hang_in_call = was_hang && (e.detail.find("during call through address") != std::string::npos || e.detail.find("during MIR_interp") != std::string::npos);  // the generated code spins, not the generator
+      if (!was_hang || hang_in_call) for (auto &op : plan.at("ops").a) if (op.k == Json::Arr && op.size() > 1 && (op[0].s == "call" || op[0].s == "interp")) { Json cc = op; cc[0] = Json("call"); ops.push(cc); }  // and the same executions
       p.set("ops", ops); p["knobs"].set("placement", (int) P_PACKED_FAR);
       ChildEnd c = run_isolated(*this, p, tmo, false);
       if (c.status == "violation" && (c.cls == "wrong_result" || c.cls == "wrong_ext_log")) c.status = "crash", c.sig = "wrong_value_instead";  // the plain history miscomputes: program-level as well
